@@ -96,6 +96,13 @@ pub trait HandleDyn: Send {
     fn refcount(&self) -> Option<u32>;
     /// zero-copy uni: converts the unique handle into a shared one
     fn into_shared(self: Box<Self>) -> Box<dyn HandleDyn>;
+    /// OgreArc only: `increment_references(n)` followed by n `raw_copy()`s (with a scheduling point between the two steps)
+    fn bulk_copies(&self, _n: u32) -> Vec<Box<dyn HandleDyn>> {
+        vec![]
+    }
+    fn is_unique(&self) -> bool {
+        false
+    }
 }
 
 pub trait IntoHandle: Send + 'static {
@@ -155,6 +162,9 @@ impl<T: Payload, A: BoundedOgreAllocator<T> + Send + Sync + 'static> HandleDyn f
         let unique = self.0.into_inner();
         Box::new(OgreArcHandle(Guarded::new(unique.into_ogre_arc())))
     }
+    fn is_unique(&self) -> bool {
+        true
+    }
 }
 impl<T: Payload, A: BoundedOgreAllocator<T> + Send + Sync + 'static> IntoHandle for OgreUnique<T, A> {
     fn into_handle(self) -> Box<dyn HandleDyn> {
@@ -181,6 +191,11 @@ impl<T: Payload, A: BoundedOgreAllocator<T> + Send + Sync + 'static> HandleDyn f
     }
     fn into_shared(self: Box<Self>) -> Box<dyn HandleDyn> {
         self
+    }
+    fn bulk_copies(&self, n: u32) -> Vec<Box<dyn HandleDyn>> {
+        unsafe { self.0.increment_references(n) };
+        ctx::harness_point();
+        (0..n).map(|_| Box::new(OgreArcHandle(Guarded::new(unsafe { self.0.raw_copy() }))) as Box<dyn HandleDyn>).collect()
     }
 }
 impl<T: Payload, A: BoundedOgreAllocator<T> + Send + Sync + 'static> IntoHandle for OgreArc<T, A> {
